@@ -172,6 +172,33 @@ fn child_default(sig: i32, hist: &[Op], env: u8, e: &mut Emit) {
     }
 }
 
+/// `register_conditional_default` armed, on any signal it accepts: one delivery does what this
+/// platform's default disposition does (the checker's own table of Linux defaults, not the library's).
+fn child_default_any(sig: i32, e: &mut Emit) {
+    unsafe {
+        let rl = libc::rlimit { rlim_cur: 0, rlim_max: 0 };
+        libc::setrlimit(libc::RLIMIT_CORE, &rl);
+    }
+    let cond = Arc::new(AtomicBool::new(true));
+    match signal_hook::flag::register_conditional_default(sig, cond) {
+        Err(_) => e.line("refused"),
+        Ok(_) => {
+            e.line("accepted");
+            unsafe {
+                libc::syscall(libc::SYS_tgkill, libc::getpid(), libc::syscall(libc::SYS_gettid) as libc::pid_t, sig);
+            }
+            e.line("survived");
+        }
+    }
+    unsafe {
+        libc::_exit(0);
+    }
+}
+
+fn linux_default_terminates(sig: i32) -> bool {
+    ![libc::SIGCHLD, libc::SIGCONT, libc::SIGURG, libc::SIGWINCH, libc::SIGSTOP, libc::SIGTSTP, libc::SIGTTIN, libc::SIGTTOU].contains(&sig)
+}
+
 /// Model: returns the index of the fatal delivery, if any.
 fn model(order_shutdown_first: bool, hist: &[Op]) -> Option<usize> {
     let mut b = false;
@@ -256,6 +283,9 @@ pub fn run(tier: Tier) -> BResult {
             }
         }
     }
+    let any_sigs: Vec<i32> = (1..=64).filter(|s| !forbidden(*s) && *s != 32 && *s != 33 && ![libc::SIGTSTP, libc::SIGTTIN, libc::SIGTTOU].contains(s)).collect();
+    let any2 = any_sigs.clone();
+    let aprobes = run_cells(any_sigs.len(), 16, Duration::from_secs(20), move |i, e| child_default_any(any2[i], e));
     let cells2 = cells.clone();
     let dcells2 = dcells.clone();
     let nmain = cells.len();
@@ -273,6 +303,25 @@ pub fn run(tier: Tier) -> BResult {
     let mut classes: std::collections::BTreeMap<String, u64> = Default::default();
     let mut distinct = std::collections::HashSet::new();
     let mut transitions = 0u64;
+    for (i, p) in aprobes.iter().enumerate() {
+        let sig = any_sigs[i];
+        transitions += 2;
+        let case = json!({"entry": "register_conditional_default", "signal": sig, "history": "armed, one delivery"});
+        *classes.entry(format!("conditional-default-any:{}", if p.has("refused") { "refused" } else { "accepted" })).or_insert(0) += 1;
+        if p.has("refused") {
+            continue;
+        }
+        let bad = if linux_default_terminates(sig) {
+            if p.fate != Fate::Signaled(sig) { Some(format!("accepted and armed, but a delivery of signal {} (default on this platform: terminate) left the process: {}", sig, p.fate.describe())) } else { None }
+        } else if p.fate != Fate::Exited(0) || !p.has("survived") {
+            Some(format!("signal {} is ignored / continues by default, but the process {}", sig, p.fate.describe()))
+        } else {
+            None
+        };
+        if let Some(m) = bad {
+            violations.push(BViolation { message: format!("C15: register_conditional_default / signal {}: {}", sig, m), case });
+        }
+    }
     for (i, p) in probes.iter().enumerate().skip(nmain) {
         let (sig, h, env) = &dcells[i - nmain];
         let race = &(*env == 1);
@@ -370,7 +419,7 @@ pub fn run(tier: Tier) -> BResult {
         violations,
         exhaustive: true,
         caps: vec![],
-        rule: format!("every history of length 1..{} over {{deliver, app stores true, app stores false, app stores another value}} containing a delivery x both registration orders x termination signals (full depth for all, all lengths for the first) x how the condition is shared (a clone; or, with the first signal, the only strong handle moved into the registration while the application arms through a weak one) + exit statuses {:?}.. on canonical histories; reference model = one boolean; the canonical histories again in processes with a second live thread (deliveries on the main thread / on the other one); plus register_conditional_default: every history of length <= 3 over (deliver, arm, disarm) x termination signals x (undisturbed / another thread installs a handler right before the library re-raises, injected at the interposed raise / another termination signal blocked and pending) - terminated in exactly the first armed delivery; distinct = distinct (order, fatal delivery index, child fate, length)", depth, &statuses[..statuses.len().min(4)]),
+        rule: format!("every history of length 1..{} over {{deliver, app stores true, app stores false, app stores another value}} containing a delivery x both registration orders x termination signals (full depth for all, all lengths for the first) x how the condition is shared (a clone; or, with the first signal, the only strong handle moved into the registration while the application arms through a weak one) + exit statuses {:?}.. on canonical histories; reference model = one boolean; register_conditional_default armed on every signal 1..64 it accepts (one delivery: the platform default per the checker's own table); the canonical histories again in processes with a second live thread (deliveries on the main thread / on the other one); plus register_conditional_default: every history of length <= 3 over (deliver, arm, disarm) x termination signals x (undisturbed / another thread installs a handler right before the library re-raises, injected at the interposed raise / another termination signal blocked and pending) - terminated in exactly the first armed delivery; distinct = distinct (order, fatal delivery index, child fate, length)", depth, &statuses[..statuses.len().min(4)]),
         assumptions: vec!["exit-time hooks observed through libc::atexit".into()],
     }
 }
